@@ -166,6 +166,44 @@ Definition served_keys (probe : sx) : list Z :=
 Definition slot_has_key (slots : sx) (k : Z) : bool :=
   existsb (fun s => Z.eqb (sx_Z (sx_nth s 1)) k) (sx_list slots).
 
+(** ---- proved lemmas of the model, checked on the IMPLEMENTATION's log ----
+    [seed_in_state_file_only_after_sync] (Props/C02.v): for every state file written at log position
+    q and every seed in it, every record write of this life carrying that seed lies below the durable
+    frontier of the prefix before q. *)
+Fixpoint enum_from {T} (i : nat) (l : list T) : list (nat * T) :=
+  match l with [] => [] | x :: t => (i, x) :: enum_from (S i) t end.
+
+Definition state_seeds (st : sfile) : list N := concat (map bs_seeds (snd (fst st))).
+
+Definition log_seed_rule (log : list (io jrec)) : bool :=
+  let el := enum_from 0 log in
+  forallb (fun qe =>
+    match snd qe with
+    | IoWriteNew st =>
+        let d := durable_upto (firstn (fst qe) log) in
+        forallb (fun s =>
+          forallb (fun pe =>
+            match snd pe with
+            | IoIndex _ r => if Z.eqb (jr_seed r) (Z.of_N s) then (fst pe <? d)%nat else true
+            | _ => true
+            end) el) (state_seeds st)
+    | _ => true
+    end) el.
+
+(** [restored_offsets_cover]: every location that resolves at a restart ends at or below the
+    restored write offset of its block. *)
+Definition slots_covered (st : option sfile) (slots : sx) : bool :=
+  match st with
+  | None => match sx_list slots with [] => true | _ => false end
+  | Some ((_, bl), _) =>
+      forallb (fun s =>
+        match nth_error bl (sx_nat (sx_nth s 3)) with
+        | Some b => (0 <=? sx_Z (sx_nth s 4)) && (0 <=? sx_Z (sx_nth s 5))
+                    && (sx_Z (sx_nth s 4) + sx_Z (sx_nth s 5) <=? bs_off b)
+        | None => false
+        end) (sx_list slots)
+  end.
+
 (** agreement of one life's observation with the model, given the media it started on;
     returns the list of disagreement codes (empty = agree) *)
 Fixpoint tie_life (fuel : nat) (c : jcfg) (base : medium jrec) (ing obs : sx) : list Z :=
@@ -177,7 +215,9 @@ Fixpoint tie_life (fuel : nat) (c : jcfg) (base : medium jrec) (ing obs : sx) : 
       let here :=
         (if sx_eqb (sx_nth obs 0) (enc_restored c (m_state base)) then [] else [10]) ++
         (if sx_eqb (sx_nth obs 1) (model_slots c base) then [] else [11]) ++
-        (if forallb (slot_has_key (sx_nth obs 1)) (served_keys (sx_nth obs 2)) then [] else [12]) in
+        (if forallb (slot_has_key (sx_nth obs 1)) (served_keys (sx_nth obs 2)) then [] else [12]) ++
+        (if log_seed_rule log then [] else [17]) ++
+        (if slots_covered (m_state base) (sx_nth obs 1) then [] else [18]) in
       here ++
       flat_map (fun eo =>
         let e := fst eo in let o := snd eo in
